@@ -21,7 +21,9 @@ RULE = ("addresses x ports x recovery mechanism: IPv4/IPv6 destinations = all-ze
         "every zero-group mask of the 8 IPv6 groups (256 masks) with random non-zero fill, IPv4-mapped/-compatible forms, random; "
         "ports with distinct swapped bytes, 0, 1, 255, 256, 65535, random; mechanisms: SO_ORIGINAL_DST (v4, v6), cmsg (v4, v6, both "
         "endiannesses), getsockname, pf query dialogue (success/failure/garbage); plus malformed streams (truncated layouts, errno, "
-        "mutated text, random bytes); a case is non-trivial when it reaches a decoder with a well-formed or near-miss input; "
+        "mutated text, random bytes); CONNECT messages as clients of every platform send them (family number 2 for IPv4, "
+        "10/30/28/24/23/26 = AF_INET6 of Linux/macOS/FreeBSD/OpenBSD+NetBSD/Windows/Solaris for IPv6) through the real connect_dst and "
+        "SockWrapper.try_connect onto a recording socket; a case is non-trivial when it reaches a decoder with a well-formed or near-miss input; "
         "distinct by content hash")
 TRUSTED_BASE = [
     "modelled, not verified: kernel layouts struct sockaddr_in / sockaddr_in6 and the IP_ORIGDSTADDR / IPV6_ORIGDSTADDR control messages "
@@ -30,6 +32,8 @@ TRUSTED_BASE = [
     "ipaddress.IPv4Address/IPv6Address.__str__ (3.12: no dotted tail for ::ffff:a.b.c.d; 3.13 prints one), glibc inet_ntop/inet_pton "
     "(dotted tail for ::a.b.c.d / ::ffff:a.b.c.d), socket.htons, BufferedReader/BytesIO.readline([limit]) - all differential-tested on every run",
     "big-endian hosts are simulated by replacing tproxy's struct '=' by '>' and htons by the identity (no such host available)",
+    "the server's outgoing socket is a recording object whose connect() validates the address with a numeric getaddrinfo restricted to "
+    "the socket's family (what CPython's connect does before the system call) and then reports EINPROGRESS",
     "pf: DIOCNATLOOK is replaced by a fake ioctl on the FreeBSD structure layout; BSD inet_ntop differs from glibc for ::0.0.x.y (not validated)",
 ]
 ASSUMPTIONS = [
@@ -248,6 +252,8 @@ class World:
 
         # server.main binds `ssnet` as a LOCAL name (its `import sshuttle.ssnet as ssnet` under
         # `if latency_buffer_size:`), so the closures see the real module: patch connect_dst there
+        self.real_connect_dst = ssnet.connect_dst
+
         def connect_dst(family, ip, port):
             world.connects.append((family, ip, port))
             return Stub()
@@ -453,6 +459,85 @@ def run_new_channel(world, data):
         return exc_name(e)
     (c,) = world.connects
     return "OK " + conn_str(c)
+
+
+# AF_INET is 2 on every platform; the number a CLIENT puts on the wire for IPv6 is its own platform's AF_INET6
+AF_INET6_ON_THE_WIRE = [("linux", 10), ("macos", 30), ("freebsd", 28), ("openbsd-netbsd", 24), ("windows", 23), ("solaris", 26)]
+
+
+class OutSock:
+    """stands for the socket the server creates for the outgoing connection: records the family it was created
+    with and the connect() call; validates the address the way CPython/libc do for a socket of that family
+    (numeric getaddrinfo restricted to the socket's family - no name service, no network), then reports EINPROGRESS"""
+
+    def __init__(self, log, family, *a):
+        self.log, self.family = log, family
+        log["sockets"].append(int(family))
+
+    def setblocking(self, flag):
+        pass
+
+    def fileno(self):
+        return 77
+
+    def setsockopt(self, *a):
+        pass
+
+    def getsockopt(self, *a):
+        return 0
+
+    def connect(self, addr):
+        ip, port = addr[0], addr[1]
+        res = socket.getaddrinfo(ip, port, self.family, socket.SOCK_STREAM, 0, socket.AI_NUMERICHOST | socket.AI_NUMERICSERV)
+        sa = res[0][4]
+        self.log["connects"].append([int(self.family), ip, port, hx(socket.inet_pton(res[0][0], sa[0].split("%")[0]))])
+        raise OSError(115, "Operation now in progress")
+
+    def close(self):
+        pass
+
+    def shutdown(self, how):
+        pass
+
+
+def observe_connect(world, data):
+    """real server new_channel -> real ssnet.connect_dst -> real SockWrapper.try_connect on an OutSock.
+    Returns {"exception": name or None, "sockets": [family...], "connects": [[family, ip, port, resolved-address-hex]...]}"""
+    ssnet = world.ssnet
+    log = {"exception": None, "sockets": [], "connects": []}
+
+    class SocketShim:
+        def __getattr__(self, name):
+            return getattr(socket, name)
+
+        @staticmethod
+        def socket(family=-1, *a, **k):
+            return OutSock(log, family)
+    stub, old_socket = ssnet.connect_dst, ssnet.socket
+    ssnet.connect_dst, ssnet.socket = world.real_connect_dst, SocketShim()
+    try:
+        try:
+            world.new_channel(6, data)
+        except Exception as e:
+            log["exception"] = "%s: %s" % (type(e).__name__, e)
+    finally:
+        ssnet.connect_dst, ssnet.socket = stub, old_socket
+    return log
+
+
+def connect_failures(log, is_v6, text, port, packed):
+    """the property on what the server did for one CONNECT: one socket of the family of the dialled address, one
+    connect() to exactly the dialled text and port, which a socket of that family resolves to the dialled address"""
+    want_fam = int(socket.AF_INET6 if is_v6 else socket.AF_INET)
+    if log["exception"]:
+        return ["the server dies on the CONNECT message of a client whose platform numbers the address family differently"
+                if log["sockets"] and log["sockets"] != [want_fam] else
+                "the server dies on a well-formed CONNECT message"]
+    if log["sockets"] != [want_fam]:
+        return ["the server opens a socket of the wrong address family for the dialled destination"]
+    if len(log["connects"]) != 1 or log["connects"][0][:3] != [want_fam, text, port] or log["connects"][0][3] != hx(packed):
+        return ["the server connects to something else than the dialled address and port"]
+    return []
 
 
 def run_udp_req(world, data):
@@ -820,6 +905,32 @@ def correspondence(ctx):
         ctx.count("tproxy_tcp")
     batch(ctx, "end-to-end tproxy tcp", lines, impls, descs, sample_every=203)
 
+    # ---- D0: CONNECT messages as clients of EVERY platform send them (property oracle on the real server alone) --
+    # client.py sends b'%d,%s,%d' % (sock.family, ip, port): family 2 for IPv4 everywhere, the client platform's own
+    # AF_INET6 number for IPv6.  Whatever that number, the server has to reach the dialled address: a socket of the
+    # family of the address text, connect() to exactly (text, port), no exception out of new_channel.
+    cp = []
+    for i, a in enumerate(A4[:: (3 if quick else 1)]):
+        cp.append((False, socket.inet_ntop(socket.AF_INET, a), a, port_for(i + 2), "any", 2))
+    for i, a in enumerate(A6[:: (5 if quick else 1)] + A6[386:422]):          # incl. the mapped / compatible / dotted-tail forms
+        for t in sorted({str(ipaddress.IPv6Address(a)), socket.inet_ntop(socket.AF_INET6, a)}):
+            for plat, num in (AF_INET6_ON_THE_WIRE if i % 4 == 0 or not quick else
+                              [AF_INET6_ON_THE_WIRE[0], AF_INET6_ON_THE_WIRE[1 + i % 5]]):
+                cp.append((True, t, a, port_for(i + 6), plat, num))
+    for p in (1, 65535, 0x1f90, 0x901f):
+        for plat, num in AF_INET6_ON_THE_WIRE:
+            cp.append((True, "2001:db8::5", socket.inet_pton(socket.AF_INET6, "2001:db8::5"), p, plat, num))
+            cp.append((True, "::ffff:102:304", socket.inet_pton(socket.AF_INET6, "::ffff:102:304"), p, plat, num))
+    for is_v6, text, packed, port, plat, num in cp:
+        payload = b"%d,%s,%d" % (num, text.encode("ascii"), port)
+        log = observe_connect(world, payload)
+        ctx.case(("connect-platform", payload), nontrivial=True,
+                 sample={"kind": "CONNECT from a %s client" % plat, "payload": payload.decode(), "server": log} if ctx.evaluations % 173 == 0 else None)
+        ctx.count("connect_from_%s_%s" % (plat, "v6" if is_v6 else "v4"))
+        for f in connect_failures(log, is_v6, text, port, packed):
+            ctx.violation(f, {"connect_payload": payload.decode("ascii"), "client_platform": plat, "family_number_on_the_wire": num,
+                              "dialled": [text, port], "server_did": log})
+
     # ---- D/E: payload decoders on malformed input ------------------------------------------
     good = [b"2,10.1.2.3,8080", b"10,2001:db8::1,443", b"30,::ffff:1.2.3.4,65535", b"2,0.0.0.0,0"]
     datas = set(good)
@@ -1153,6 +1264,15 @@ def replay(ctx, rp):
     """re-run a stored failing input against the real code; returns True if it still fails"""
     world = World()
     r = rp.get("replay", {})
+    if "connect_payload" in r:
+        payload = r["connect_payload"].encode("ascii")
+        text, port = r["dialled"]
+        is_v6 = ":" in text
+        log = observe_connect(world, payload)
+        fails = connect_failures(log, is_v6, text, port, socket.inet_pton(socket.AF_INET6 if is_v6 else socket.AF_INET, text))
+        print("CONNECT %r (%s client) -> server: %s" % (r["connect_payload"], r.get("client_platform"), json.dumps(log)))
+        print("property failures:", fails)
+        return bool(fails)
     if "layout" in r:
         fam = r["family"]
         a = unhx(r["addr"])
